@@ -49,16 +49,18 @@ def helpRequested (P : Prog) (n : Nat) : Bool :=
   let nd := P.node n
   !nd.helpName.isEmpty && calledAtRoot P nd.helpName
 
+/-- the required-option check `Parse` performs itself: only when the final node is the root and help
+was not requested -/
+def requiredAtParse (s : PState) : Option UErr :=
+  if (s.P.node s.cur).parent.isNone && !helpRequested s.P s.cur then checkRequired s.P s.cur else none
+
 /-- `gopt.Parse(args)` without COMP_LINE -/
 def parseUser (ext : Ext) (P : Prog) (args : List Str) : ParseOut :=
   let s := parseArgs ext (P.node 0).mode P args
   match s.err with
   | some e => { st := s, err := some (.parse e) }
   | none =>
-    let fin := s.P.node s.cur
-    let reqErr : Option UErr :=
-      if fin.parent.isNone && !helpRequested s.P s.cur then checkRequired s.P s.cur else none
-    match reqErr with
+    match requiredAtParse s with
     | some e => { st := s, err := some e }
     | none =>
       match unknownPolicy s.unk [] with
